@@ -5,7 +5,7 @@ CONSTANTS
   Reqs = {1, 2, 3}
   Idem = {1, 3}
   OutcomeSet = {"ok", "rt_same"}
-  MaxDrops = 2
+  MaxDrops = 1
   ClosingHoldsLock = @HOLDS@
   RetrySameSticks = @STICKS@
 VIEW view
